@@ -89,6 +89,9 @@ class Obligation(object):
         self.extra = extra or {}
 
 
+SHAREDP = Z.func('SHARED_ACROSS_REQUESTS', Z.Obj, Z.Bool)
+
+
 class Ctx(object):
     FEAS_TIMEOUT_MS = 400
 
@@ -206,6 +209,14 @@ class Ctx(object):
 
     def mutate(self, ref, node=None):
         """Called before any mutation of a heap object: enforces loop frames."""
+        fm = getattr(self, 'frame_mark', None)
+        if fm is not None and ref.rid in getattr(self, 'shared_rids', ()):
+            self.frame_conds.append((Z.FALSE, 'store into a mutable parameter default, which all calls share (line %s)'
+                                     % getattr(node, 'lineno', '?')))
+        if fm is not None and ref.rid < fm and ref.rid not in self.frame_ok:
+            # frame condition: an object that existed before the call is being stored into
+            self.frame_conds.append((Z.FALSE, 'store into an object that existed before the call (line %s)'
+                                     % getattr(node, 'lineno', '?')))
         for (mark, allowed) in self.loop_guard:
             if ref.rid < mark and ref.rid not in allowed:
                 raise Unsupported('loop body mutates an object not listed in the loop '
@@ -291,6 +302,9 @@ class Ctx(object):
         a = self.attr_array(key, rsort)
         self.attr[key] = z3.Store(a, obj, val)
         self.writes.append((obj, key, getattr(node, 'lineno', None)))
+        if getattr(self, 'frame_mark', None) is not None:
+            self.frame_conds.append((Z.Not(SHAREDP(obj)), 'attribute %s of a shared object stored (line %s)'
+                                     % (key, getattr(node, 'lineno', '?'))))
         self.write_values = getattr(self, 'write_values', [])
         self.write_values.append((obj, key, val))
 
